@@ -63,6 +63,10 @@ type content struct {
 	// svc
 	svcOK    bool
 	svcEmpty bool
+	// svcEntries are the elements of blocked_services as the model names
+	// them: n = null, b = invalid id, o = a service that converts.
+	svcEntries []string
+	svcJSON    bool
 	// hash
 	hashOK bool
 }
@@ -79,7 +83,7 @@ type entry struct {
 
 // plan is what the server does with one URL during one round.
 type plan struct {
-	kind   string // ok okchunked connerr timeouthdr status empty cutcl cutchunked timeoutbody
+	kind   string // ok okchunked connerr timeouthdr status empty cutcl cutchunked timeoutbody cancelctx
 	status int
 	c      *content
 	cut    int
@@ -121,7 +125,7 @@ func (p *plan) faultClass(max int) string {
 // token is the model's encoding of the response.
 func (p *plan) token() string {
 	switch p.kind {
-	case "connerr", "timeouthdr":
+	case "connerr", "timeouthdr", "cancelctx":
 		return "g"
 	case "ok":
 		return fmt.Sprintf("200:%d:0:1", p.c.id)
@@ -140,8 +144,10 @@ type world struct {
 	srv  *httptest.Server
 	base string
 
-	mu       sync.Mutex
-	plans    map[string]*plan
+	mu sync.Mutex
+	// cancelRound cancels the context of the refresh that is running.
+	cancelRound context.CancelFunc
+	plans       map[string]*plan
 	reqs     map[string]int
 	dir      string
 	snapOn   bool
@@ -190,6 +196,16 @@ func (w *world) handle(rw http.ResponseWriter, rq *http.Request) {
 			_ = conn.Close()
 		}
 	case "timeouthdr":
+		<-rq.Context().Done()
+	case "cancelctx":
+		// The deadline of the whole refresh expires while this request is in
+		// flight.
+		w.mu.Lock()
+		cancel := w.cancelRound
+		w.mu.Unlock()
+		if cancel != nil {
+			cancel()
+		}
 		<-rq.Context().Done()
 	case "status":
 		rw.WriteHeader(p.status)
@@ -383,23 +399,69 @@ func (w *world) listURL(u int) string { return fmt.Sprintf("%s/u/%d", w.base, u)
 // newSvc builds a blocked-service index.  shape: ok, notjson, badid, empty,
 // norules.
 func (w *world) newSvc(shape string) *content {
-	c := w.add(&content{kind: "svc", svcOK: true})
+	c := w.add(&content{kind: "svc", svcOK: true, svcJSON: true, svcEntries: []string{"o", "o"}})
 	rules := fmt.Sprintf(`"||%s^","||c%d-mid.probe^","||%s^"`, first(c.id), c.id, last(c.id))
 	body := fmt.Sprintf(`{"blocked_services":[{"id":"svc1","rules":[%s]},{"id":"svc2","rules":["||svc2-%d.probe^"]}]}`, rules, c.id)
 	switch shape {
 	case "notjson":
 		body = fmt.Sprintf("<html>service portal %d</html>", c.id)
-		c.svcOK = false
+		c.svcOK, c.svcJSON, c.svcEntries = false, false, nil
 	case "badid":
 		body = fmt.Sprintf(`{"blocked_services":[{"id":"svc1","rules":[%s]},{"id":"bad id","rules":["||x%d.probe^"]}]}`, rules, c.id)
-		c.svcOK = false
+		c.svcOK, c.svcEntries = false, []string{"o", "b"}
 	case "empty":
 		body = fmt.Sprintf(`{"blocked_services":[],"v":%d}`, c.id)
-		c.svcEmpty = true
+		c.svcEmpty, c.svcEntries = true, nil
+	case "null":
+		// A null element after a valid one.
+		body = fmt.Sprintf(`{"blocked_services":[{"id":"svc1","rules":[%s]},null],"v":%d}`, rules, c.id)
+		c.svcOK, c.svcEntries = false, []string{"o", "n"}
+	case "nullfirst":
+		body = fmt.Sprintf(`{"blocked_services":[null,{"id":"svc1","rules":[%s]}],"v":%d}`, rules, c.id)
+		c.svcOK, c.svcEntries = false, []string{"n", "o"}
+	case "nullonly":
+		body = fmt.Sprintf(`{"blocked_services":[null],"v":%d}`, c.id)
+		c.svcOK, c.svcEntries = false, []string{"n"}
+	case "badidnull":
+		// An element with an invalid id before a null one.
+		body = fmt.Sprintf(`{"blocked_services":[{"id":"bad id","rules":["||x%d.probe^"]},{"id":"svc1","rules":[%s]},null]}`, c.id, rules)
+		c.svcOK, c.svcEntries = false, []string{"b", "o", "n"}
 	case "norules":
 		body = fmt.Sprintf(`{"blocked_services":[{"id":"svc1","rules":[%s]},{"id":"svc3","rules":[]}],"v":%d}`, rules, c.id)
 	}
 	c.body = []byte(body)
+
+	return w.finish(c)
+}
+
+// newSvcFrom builds a blocked-service index from element tokens (o = a
+// service that converts, the first of which is svc1 with the marker rules;
+// b = a service with an invalid id; n = null).
+func (w *world) newSvcFrom(tokens []string) *content {
+	c := w.add(&content{kind: "svc", svcOK: true, svcJSON: true, svcEntries: tokens})
+	parts := []string{}
+	nOK := 0
+	for i, t := range tokens {
+		switch t {
+		case "n":
+			parts = append(parts, "null")
+			c.svcOK = false
+		case "b":
+			parts = append(parts, fmt.Sprintf(`{"id":"bad id %d","rules":["||x%d.probe^"]}`, i, c.id))
+			c.svcOK = false
+		default:
+			nOK++
+			if nOK == 1 {
+				parts = append(parts, fmt.Sprintf(`{"id":"svc1","rules":["||%s^","||%s^"]}`, first(c.id), last(c.id)))
+			} else {
+				parts = append(parts, fmt.Sprintf(`{"id":"svc%d","rules":["||svc%d-%d.probe^"]}`, nOK, nOK, c.id))
+			}
+		}
+	}
+	if nOK == 0 && c.svcOK {
+		c.svcEmpty = true
+	}
+	c.body = []byte(fmt.Sprintf(`{"blocked_services":[%s],"v":%d}`, strings.Join(parts, ","), c.id))
 
 	return w.finish(c)
 }
@@ -425,7 +487,10 @@ func (w *world) newHash(size int, shape string) *content {
 
 // roundSpec describes one refresh round.
 type roundSpec struct {
-	restart  bool
+	restart bool
+	// maxes: the process restarts with other size limits (index, rule
+	// lists, services); nil = unchanged.  Only looked at on a restart.
+	maxes *[3]int
 	idxFresh bool
 	svcFresh bool
 	fresh    map[int]bool
@@ -449,7 +514,9 @@ type caseSpec struct {
 
 // obs is what is observable after a round.
 type obs struct {
-	ok      bool
+	ok bool
+	// panicked: the refresh did not return but panicked.
+	panicked bool
 	idxDisk string
 	svcMem  string
 	svcDisk string
@@ -475,7 +542,12 @@ func (o *obs) String() string {
 		parts = append(parts, fmt.Sprintf("%d:%s/%s", k, dash(o.rlMem[k]), dash(o.rlDisk[k])))
 	}
 
-	return fmt.Sprintf("ok=%s idx=%s svc=%s/%s rl=%s", b2s(o.ok), dash(o.idxDisk), dash(o.svcMem), dash(o.svcDisk), strings.Join(parts, ","))
+	okStr := b2s(o.ok)
+	if o.panicked {
+		okStr = "p"
+	}
+
+	return fmt.Sprintf("ok=%s idx=%s svc=%s/%s rl=%s", okStr, dash(o.idxDisk), dash(o.svcMem), dash(o.svcDisk), strings.Join(parts, ","))
 }
 
 func dash(s string) string {
@@ -662,7 +734,7 @@ func runCase(r *hlib.Result, m *hlib.Model, w *world, cs *caseSpec, caseNo int) 
 	hlib.Must(os.MkdirAll(w.dir, 0o755))
 	w.snaps, w.snapStart = nil, nil
 
-	lines := []string{fmt.Sprintf("cfg %d %d %d %s 1", cs.idxMax, cs.rlMax, cs.svcMax, b2s(cs.svcEnabled))}
+	lines := []string{fmt.Sprintf("cfg %d %d %d %s 1 1", cs.idxMax, cs.rlMax, cs.svcMax, b2s(cs.svcEnabled))}
 	declared := map[int]bool{}
 	declare := func(c *content) {
 		if c == nil || declared[c.id] {
@@ -672,13 +744,16 @@ func runCase(r *hlib.Result, m *hlib.Model, w *world, cs *caseSpec, caseNo int) 
 		lines = append(lines, fmt.Sprintf("len %d %d", c.id, len(c.body)))
 		switch c.kind {
 		case "idx":
+			// In the order loadIndex puts them into: the model walks the
+			// entries as the code does (which matters when the round is
+			// cut short; otherwise not, see index_order_irrelevant).
 			parts := []string{}
-			for _, e := range c.entries {
+			for _, e := range sortedEntries(c.entries) {
 				parts = append(parts, fmt.Sprintf("%d %s %s %d", e.key, b2s(e.keyOk), b2s(e.urlOk), e.url))
 			}
 			lines = append(lines, strings.TrimSpace(fmt.Sprintf("doc %d %s %s", c.id, b2s(c.jsonOK), strings.Join(parts, " "))))
 		case "svc":
-			lines = append(lines, fmt.Sprintf("svcok %d %s", c.id, b2s(c.svcOK)))
+			lines = append(lines, strings.TrimSpace(fmt.Sprintf("svcdoc %d %s %s", c.id, b2s(c.svcJSON), strings.Join(c.svcEntries, " "))))
 		}
 	}
 	// A cache file that holds something else than an index is not an index.
@@ -718,6 +793,11 @@ func runCase(r *hlib.Result, m *hlib.Model, w *world, cs *caseSpec, caseNo int) 
 			if s != nil {
 				lines = append(lines, "restart")
 			}
+			if rs.maxes != nil {
+				cs.idxMax, cs.rlMax, cs.svcMax = rs.maxes[0], rs.maxes[1], rs.maxes[2]
+				lines = append(lines, fmt.Sprintf("max %d %d %d", cs.idxMax, cs.rlMax, cs.svcMax))
+				r.Count("restart_with_other_size_limits")
+			}
 			s = w.newStorage(cs)
 			r.Count("round_initial")
 		} else {
@@ -730,6 +810,20 @@ func runCase(r *hlib.Result, m *hlib.Model, w *world, cs *caseSpec, caseNo int) 
 			prev = &obs{ok: true, idxDisk: prev.idxDisk, svcDisk: prev.svcDisk, rlMem: map[int]string{}, rlDisk: prev.rlDisk}
 		}
 
+		// A chunked body of exactly the size limit is accepted or refused
+		// depending on timing (see plan.faulty); after a change of the limits
+		// an older document can happen to have that length: send it with
+		// Content-Length framing instead.
+		unchunk := func(p *plan, max int) {
+			if p != nil && p.kind == "okchunked" && len(p.c.body) == max {
+				p.kind = "ok"
+			}
+		}
+		unchunk(rs.idx, cs.idxMax)
+		unchunk(rs.svc, cs.svcMax)
+		for _, p := range rs.urls {
+			unchunk(p, cs.rlMax)
+		}
 		// Install the plans.
 		w.mu.Lock()
 		w.plans = map[string]*plan{"/idx": rs.idx, "/svc": rs.svc}
@@ -760,7 +854,17 @@ func runCase(r *hlib.Result, m *hlib.Model, w *world, cs *caseSpec, caseNo int) 
 			setFresh(filepath.Join(w.dir, keyNames[k]), rs.fresh[k])
 			lines = append(lines, fmt.Sprintf("fresh %d %s", k, b2s(rs.fresh[k])))
 		}
-		lines = append(lines, fmt.Sprintf("round %s %s %s %s %s", b2s(acceptStale), b2s(rs.idxFresh), rs.idx.token(), b2s(rs.svcFresh), rs.svc.token()))
+		cancelURL := -1
+		for _, u := range sortedInts(rs.urls) {
+			if rs.urls[u].kind == "cancelctx" {
+				cancelURL = u
+			}
+		}
+		if cancelURL >= 0 {
+			lines = append(lines, fmt.Sprintf("roundc %s %s %s %s %s %d", b2s(acceptStale), b2s(rs.idxFresh), rs.idx.token(), b2s(rs.svcFresh), rs.svc.token(), cancelURL))
+		} else {
+			lines = append(lines, fmt.Sprintf("round %s %s %s %s %s", b2s(acceptStale), b2s(rs.idxFresh), rs.idx.token(), b2s(rs.svcFresh), rs.svc.token()))
+		}
 
 		nTimeouts := 0
 		for _, p := range w.plans {
@@ -769,13 +873,24 @@ func runCase(r *hlib.Result, m *hlib.Model, w *world, cs *caseSpec, caseNo int) 
 			}
 		}
 		ctx, cancel := context.WithTimeout(context.Background(), 30*time.Second)
+		w.mu.Lock()
+		w.cancelRound = cancel
+		w.mu.Unlock()
 		start := time.Now()
 		var rerr error
+		panicked := false
 		func() {
 			defer func() {
 				if p := recover(); p != nil {
-					r.Violate("panic-in-refresh", fmt.Sprint(p), map[string]any{"case": caseNo, "ops": lines})
+					sig := "panic-in-refresh"
+					if c := w.contentByID(w.diskID(w.dir, "services.json")); c != nil && contains(c.svcEntries, "n") {
+						// The stored blocked-service index has a null element.
+						sig += ":null-service-entry"
+					}
+					r.Violate(sig, fmt.Sprintf("case %d (%s) round %d: the refresh panicked instead of returning: %v; services.json now holds %q", caseNo, cs.name, ri, p, readShort(filepath.Join(w.dir, "services.json"))),
+						map[string]any{"case": caseNo, "case_name": cs.name, "round": ri, "ops": lines, "services_document_offered": docOf(rs.svc)})
 					rerr = fmt.Errorf("panic: %v", p)
+					panicked = true
 				}
 			}()
 			if acceptStale {
@@ -786,6 +901,9 @@ func runCase(r *hlib.Result, m *hlib.Model, w *world, cs *caseSpec, caseNo int) 
 		}()
 		took := time.Since(start)
 		cancel()
+		if took > time.Second && os.Getenv("VERIF_C13_SLOW") != "" {
+			fmt.Fprintf(os.Stderr, "slow round %d of %s: %v %s timeouts=%v err=%v\n", ri, cs.name, took, planSummary(rs, cs), cs.timeouts, rerr)
+		}
 		w.mu.Lock()
 		w.snapOn = false
 		reqs := w.reqs
@@ -800,6 +918,7 @@ func runCase(r *hlib.Result, m *hlib.Model, w *world, cs *caseSpec, caseNo int) 
 		}
 
 		cur := w.observe(s, rerr == nil)
+		cur.panicked = panicked
 		recs = append(recs, roundRec{lineIdx: len(lines) - 1, real: cur.String()})
 		canon = append(canon, fmt.Sprintf("%s|%s|%s|%v", lines[len(lines)-1], planSummary(rs, cs), cur.String(), rs.fresh))
 
@@ -820,6 +939,9 @@ func runCase(r *hlib.Result, m *hlib.Model, w *world, cs *caseSpec, caseNo int) 
 		// process restarted on it must come up.
 		w.checkSnapshots(r, cs, caseNo, lines)
 
+		if os.Getenv("VERIF_C13_SLOW") != "" {
+			_ = os.WriteFile(fmt.Sprintf("/tmp/c13lines-%d.txt", caseNo), []byte(strings.Join(lines, "\n")+"\n"), 0o644)
+		}
 		answers := m.Batch(lines)
 		r.ModelOps += len(lines)
 		for _, rec := range recs {
@@ -864,6 +986,36 @@ func (w *world) canonModel(ans string) string {
 	}
 
 	return ans
+}
+
+func contains(ss []string, t string) bool {
+	for _, x := range ss {
+		if x == t {
+			return true
+		}
+	}
+
+	return false
+}
+
+func readShort(path string) string {
+	b, err := os.ReadFile(path)
+	if err != nil {
+		return ""
+	}
+	if len(b) > 300 {
+		b = b[:300]
+	}
+
+	return string(b)
+}
+
+func docOf(p *plan) string {
+	if p == nil || p.c == nil || len(p.c.body) > 2048 {
+		return ""
+	}
+
+	return string(p.c.body)
 }
 
 func tail(s []string, n int) []string {
@@ -955,7 +1107,7 @@ func oracle(r *hlib.Result, w *world, cs *caseSpec, rs *roundSpec, acceptStale b
 	// O5: a faulty index download changes nothing anywhere.
 	if idxRequested && idxFaulty {
 		sawFault = true
-		if prev.String() != (&obs{ok: prev.ok, idxDisk: cur.idxDisk, svcMem: cur.svcMem, svcDisk: cur.svcDisk, rlMem: cur.rlMem, rlDisk: cur.rlDisk}).String() {
+		if prev.String() != (&obs{ok: prev.ok, panicked: prev.panicked, idxDisk: cur.idxDisk, svcMem: cur.svcMem, svcDisk: cur.svcDisk, rlMem: cur.rlMem, rlDisk: cur.rlDisk}).String() {
 			viol("index-fault-changed-state:"+rs.idx.faultClass(cs.idxMax), "a failed index download changed what is served or stored")
 		}
 		if cur.ok {
@@ -992,6 +1144,36 @@ func oracle(r *hlib.Result, w *world, cs *caseSpec, rs *roundSpec, acceptStale b
 			viol("services-not-old-or-new", "blocked services serve neither the previous nor a newly offered complete document")
 		} else {
 			sawApplied = true
+		}
+	}
+
+	// O6: a process (re)started on complete cache files comes up from them,
+	// whatever the servers do and whatever size limits it is configured with.
+	if acceptStale {
+		idxC, svcC := w.contentByID(prev.idxDisk), w.contentByID(prev.svcDisk)
+		idxGood := idxC != nil && idxC.kind == "idx" && idxC.jsonOK
+		svcGood := !cs.svcEnabled || (svcC != nil && svcC.kind == "svc" && svcC.svcOK)
+		// ... unless the start itself was cancelled from outside.
+		cancelled := false
+		for u, p := range rs.urls {
+			if p.kind == "cancelctx" && reqs[fmt.Sprintf("/u/%d", u)] > 0 {
+				cancelled = true
+			}
+		}
+		if cancelled {
+			r.Count("restart_cancelled")
+		}
+		if idxGood && svcGood && !cancelled {
+			r.Count("restart_on_complete_cache")
+			if len(idxC.body) > cs.idxMax || (cs.svcEnabled && len(svcC.body) > cs.svcMax) {
+				r.Count("restart_on_complete_cache:index_longer_than_new_limit")
+			}
+			if !cur.ok {
+				viol("restart-fails-on-complete-cache", "RefreshInitial failed although filters.json and services.json hold complete, valid documents")
+			}
+			if idxRequested || (cs.svcEnabled && reqs["/svc"] > 0) {
+				viol("restart-ignores-complete-cache", "RefreshInitial downloaded an index although its cache file holds a complete document")
+			}
 		}
 	}
 
@@ -1146,11 +1328,8 @@ func oracle(r *hlib.Result, w *world, cs *caseSpec, rs *roundSpec, acceptStale b
 // entriesInKeyOrder renders the entries of an index document in the order
 // loadIndex puts them into (stable by key, null entries last), marking what
 // is invalid about each.
-func entriesInKeyOrder(c *content) string {
-	if c == nil {
-		return "-"
-	}
-	es := append([]entry(nil), c.entries...)
+func sortedEntries(in []entry) []entry {
+	es := append([]entry(nil), in...)
 	sort.SliceStable(es, func(i, j int) bool {
 		if es[i].null || es[j].null {
 			return !es[i].null && es[j].null
@@ -1158,6 +1337,15 @@ func entriesInKeyOrder(c *content) string {
 
 		return es[i].keyStr < es[j].keyStr
 	})
+
+	return es
+}
+
+func entriesInKeyOrder(c *content) string {
+	if c == nil {
+		return "-"
+	}
+	es := sortedEntries(c.entries)
 	parts := []string{}
 	for _, e := range es {
 		switch {
@@ -1235,7 +1423,16 @@ func (w *world) checkSnapshots(r *hlib.Result, cs *caseSpec, caseNo int, lines [
 		w.mu.Unlock()
 		s := w.newStorage(&caseSpec{rlMax: 4096, idxMax: 4096, svcMax: 4096, svcEnabled: cs.svcEnabled})
 		ctx, cancel := context.WithTimeout(context.Background(), 20*time.Second)
-		err = s.RefreshInitial(ctx)
+		func() {
+			defer func() {
+				if p := recover(); p != nil {
+					r.Violate("killpoint-restart-panics", fmt.Sprintf("case %d: RefreshInitial on kill-point snapshot %d panics: %v", caseNo, i, p),
+						map[string]any{"case": caseNo, "case_name": cs.name, "ops": lines, "snapshot": i})
+					err = fmt.Errorf("panic: %v", p)
+				}
+			}()
+			err = s.RefreshInitial(ctx)
+		}()
 		cancel()
 		if errors.Is(err, context.DeadlineExceeded) {
 			// Every answer is healthy and every download is bounded by the
@@ -1298,13 +1495,13 @@ func fileClass(name string) string {
 var statuses = []int{201, 204, 206, 304, 400, 403, 404, 500, 503}
 
 // faultKinds are the fault kinds of the statement (plus "body at the limit").
-var faultKinds = []string{"connerr", "status", "empty", "oversize", "cutcl", "cutchunked", "timeouthdr", "timeoutbody"}
+var faultKinds = []string{"connerr", "status", "empty", "oversize", "cutcl", "cutchunked", "cancelctx", "timeouthdr", "timeoutbody"}
 
 // mkFault builds a faulty plan of the given kind around a complete content
 // generator.
 func (w *world) mkFault(rng *rand.Rand, kind string, max int, mk func(size int) *content, junk *content, empty *content) *plan {
 	switch kind {
-	case "connerr", "timeouthdr":
+	case "connerr", "timeouthdr", "cancelctx":
 		return &plan{kind: kind}
 	case "status":
 		c := junk
@@ -1517,7 +1714,7 @@ func (g *gen) svcFault(kind string) *plan {
 	mk := func(size int) *content {
 		c := g.w.newSvc("ok")
 		if size > len(c.body) {
-			c = g.w.add(&content{kind: "svc", svcOK: true})
+			c = g.w.add(&content{kind: "svc", svcOK: true, svcJSON: true, svcEntries: []string{"o"}})
 			c.body = []byte(fmt.Sprintf(`{"blocked_services":[{"id":"svc1","rules":["||%s^","||%s^","%s"]}]}`, first(c.id), last(c.id), strings.Repeat("#", size)))
 			g.w.finish(c)
 		}
@@ -1537,6 +1734,10 @@ func (g *gen) pickFault() string {
 		if (k == "timeouthdr" || k == "timeoutbody") && !g.cs.timeouts {
 			continue
 		}
+		if k == "cancelctx" {
+			// At most one per round: placed by randomCase itself.
+			continue
+		}
 
 		return k
 	}
@@ -1550,11 +1751,15 @@ func okKind(rng *rand.Rand) string {
 	return "ok"
 }
 
+// svcShapes are the blocked-service index documents of the random campaign.
+var svcShapes = []string{"ok", "ok", "ok", "ok", "ok", "ok", "notjson", "badid", "empty", "norules", "null", "nullfirst", "nullonly", "badidnull"}
+
 // randomCase generates a random history.
 func randomCase(w *world, rng *rand.Rand, no int) *caseSpec {
 	cs := &caseSpec{name: fmt.Sprintf("random-%d", no), idxMax: 1500, svcMax: 1200, svcEnabled: rng.IntN(5) != 0}
 	cs.rlMax = []int{200, 400, 1000}[rng.IntN(3)]
 	cs.timeouts = rng.IntN(25) == 0
+	init3 := [3]int{cs.idxMax, cs.rlMax, cs.svcMax}
 	g := &gen{w: w, rng: rng, cs: cs}
 	g.junk = w.newJunk("junk", fmt.Sprintf("<html>error page %d</html>", no))
 	g.empty = w.newEmpty()
@@ -1575,7 +1780,7 @@ func randomCase(w *world, rng *rand.Rand, no int) *caseSpec {
 			}
 		}
 		if rng.IntN(2) == 0 {
-			cs.seedSvc = w.newSvc([]string{"ok", "ok", "notjson", "empty"}[rng.IntN(4)])
+			cs.seedSvc = w.newSvc([]string{"ok", "ok", "notjson", "empty", "null", "nullonly"}[rng.IntN(6)])
 		}
 	}
 
@@ -1585,7 +1790,13 @@ func randomCase(w *world, rng *rand.Rand, no int) *caseSpec {
 	curRL := map[int]*content{}
 	for i := 0; i < nRounds; i++ {
 		rs := &roundSpec{fresh: map[int]bool{}, urls: map[int]*plan{}}
-		rs.restart = i > 0 && rng.IntN(8) == 0
+		rs.restart = i > 0 && rng.IntN(6) == 0
+		if rs.restart && rng.IntN(2) == 0 {
+			// The operator changed the size limits; files cached under the
+			// old ones may be longer than the new ones allow to download.
+			rs.maxes = &[3]int{[]int{1500, 300, 120}[rng.IntN(3)], []int{200, 400, 1000, 90}[rng.IntN(4)], []int{1200, 150}[rng.IntN(2)]}
+			cs.idxMax, cs.rlMax, cs.svcMax = rs.maxes[0], rs.maxes[1], rs.maxes[2]
+		}
 		rs.idxFresh = rng.IntN(3) == 0
 		rs.svcFresh = rng.IntN(3) == 0
 		for k := 1; k < len(keyNames); k++ {
@@ -1603,7 +1814,7 @@ func randomCase(w *world, rng *rand.Rand, no int) *caseSpec {
 		}
 		// Services.
 		if curSvc == nil || rng.IntN(3) == 0 {
-			curSvc = w.newSvc([]string{"ok", "ok", "ok", "ok", "notjson", "badid", "empty", "norules"}[rng.IntN(8)])
+			curSvc = w.newSvc(svcShapes[rng.IntN(len(svcShapes))])
 		}
 		if rng.IntN(100) < faultP {
 			rs.svc = g.svcFault(g.pickFault())
@@ -1625,8 +1836,23 @@ func randomCase(w *world, rng *rand.Rand, no int) *caseSpec {
 				rs.urls[u] = &plan{kind: okKind(rng), c: curRL[u]}
 			}
 		}
+		if rng.IntN(10) == 0 {
+			// The context of the whole round is cancelled while one of the
+			// downloads is in flight.
+			switch p := rng.IntN(8); {
+			case p == 0:
+				rs.idx = &plan{kind: "cancelctx"}
+			case p == 1:
+				rs.svc = &plan{kind: "cancelctx"}
+			default:
+				rs.urls[1+rng.IntN(6)] = &plan{kind: "cancelctx"}
+			}
+			w.r.Count("gen_round_with_context_cancellation")
+		}
 		cs.rounds = append(cs.rounds, rs)
 	}
+	// The limits the first process starts with.
+	cs.idxMax, cs.rlMax, cs.svcMax = init3[0], init3[1], init3[2]
 
 	return cs
 }
@@ -1675,7 +1901,7 @@ func gridCases(w *world, rng *rand.Rand, nRounds int, withTimeouts bool, each fu
 }
 
 // directedCases are fixed scenarios that are run on every check.
-func directedCases(w *world, rng *rand.Rand, each func(*caseSpec)) {
+func directedCases(w *world, rng *rand.Rand, thorough bool, each func(*caseSpec)) {
 	mk := func(name string) (*caseSpec, *gen) {
 		cs := &caseSpec{name: name, idxMax: 1500, svcMax: 1200, rlMax: 400, svcEnabled: true}
 		g := &gen{w: w, rng: rng, cs: cs}
@@ -1776,7 +2002,7 @@ func directedCases(w *world, rng *rand.Rand, each func(*caseSpec)) {
 		each(cs)
 	}
 	// Services fail after the lists were downloaded.
-	for _, shape := range []string{"notjson", "badid"} {
+	for _, shape := range []string{"notjson", "badid", "null", "nullfirst", "nullonly", "badidnull"} {
 		cs, g := mk("directed-services-" + shape)
 		es := []entry{g.goodEntry(1, 1), g.goodEntry(2, 2)}
 		r1 := round(g, es, "ok")
@@ -1786,6 +2012,92 @@ func directedCases(w *world, rng *rand.Rand, each func(*caseSpec)) {
 		r2.idxFresh = true
 		cs.rounds = []*roundSpec{round(g, es, "ok"), r1, r2}
 		each(cs)
+	}
+	// A blocked-service index with a null element is stored (it is a complete
+	// download), refused, and met again by the next process.
+	for _, shape := range []string{"null", "nullfirst", "nullonly", "badidnull"} {
+		cs, g := mk("directed-services-restart-on-" + shape)
+		es := []entry{g.goodEntry(1, 1), g.goodEntry(2, 2)}
+		r1 := round(g, es, "ok")
+		r1.svc = &plan{kind: okKind(rng), c: w.newSvc(shape)}
+		r2 := round(g, es, "ok")
+		r2.restart = true
+		cs.rounds = []*roundSpec{round(g, es, "ok"), r1, r2, round(g, es, "ok")}
+		each(cs)
+	}
+	// Thorough: every blocked-service index of one to three elements over
+	// {converts, invalid id, null}: offered to a running process, then met in
+	// the cache file by the next one.
+	if thorough {
+		toks := []string{"o", "b", "n"}
+		var seqs [][]string
+		for n := 1; n <= 3; n++ {
+			total := 1
+			for i := 0; i < n; i++ {
+				total *= 3
+			}
+			for x := 0; x < total; x++ {
+				seq, y := []string{}, x
+				for i := 0; i < n; i++ {
+					seq = append(seq, toks[y%3])
+					y /= 3
+				}
+				seqs = append(seqs, seq)
+			}
+		}
+		for _, seq := range seqs {
+			cs, g := mk("directed-services-elements-" + strings.Join(seq, ""))
+			es := []entry{g.goodEntry(1, 1), g.goodEntry(2, 2)}
+			r1 := round(g, es, "ok")
+			r1.svc = &plan{kind: okKind(rng), c: w.newSvcFrom(seq)}
+			r2 := round(g, es, "ok")
+			r2.restart = true
+			cs.rounds = []*roundSpec{round(g, es, "ok"), r1, r2, round(g, es, "ok")}
+			each(cs)
+		}
+		w.r.Notes = append(w.r.Notes, "services: every blocked-service index of 1..3 elements over {converts, invalid id, null} (39) enumerated, each offered to a running process and then met by a restarted one")
+	}
+	// The next process is configured with smaller size limits than the cached
+	// files have: it must come up from the complete files all the same, with
+	// the servers down or up.
+	for _, down := range []bool{true, false} {
+		cs, g := mk(fmt.Sprintf("directed-restart-smaller-limits-down=%v", down))
+		cs.rlMax = 1000
+		es := []entry{g.goodEntry(1, 1), g.goodEntry(2, 2), g.goodEntry(3, 3)}
+		r0 := round(g, es, "ok")
+		for u := 1; u <= 3; u++ {
+			r0.urls[u] = &plan{kind: okKind(rng), c: w.newRL(600 + 100*u)}
+		}
+		r1 := round(g, es, "ok")
+		r1.restart = true
+		r1.maxes = &[3]int{60, 90, 60}
+		r1.fresh = map[int]bool{1: true}
+		if down {
+			r1.idx, r1.svc = &plan{kind: "connerr"}, &plan{kind: "connerr"}
+			for u := range r1.urls {
+				r1.urls[u] = &plan{kind: "connerr"}
+			}
+		}
+		cs.rounds = []*roundSpec{r0, r1}
+		each(cs)
+	}
+	// The context of the round is cancelled (the deadline of the refresh
+	// worker expires) while list k is being downloaded: lists before it in key
+	// order have been stored, nothing may be lost or swapped in half.
+	for k := 1; k < len(keyNames); k++ {
+		for _, svcOn := range []bool{true, false} {
+			cs, g := mk(fmt.Sprintf("directed-cancel-at-list-%d-svc=%v", k, svcOn))
+			cs.svcEnabled = svcOn
+			es := []entry{g.goodEntry(1, 1), g.goodEntry(2, 2), g.goodEntry(3, 3), g.goodEntry(4, 4)}
+			if k%2 == 0 {
+				es = append(es, g.badURLEntry(1+k%4), g.badKeyEntry(k))
+			}
+			rng.Shuffle(len(es), func(i, j int) { es[i], es[j] = es[j], es[i] })
+			r1 := round(g, es, "ok")
+			r1.urls[k] = &plan{kind: "cancelctx"}
+			cs.rounds = []*roundSpec{round(g, es, "ok"), r1, round(g, es, "ok")}
+			each(cs)
+		}
 	}
 	// Body sizes around the limit, both framings.
 	for _, d := range []int{-1, 0, 1} {
@@ -1836,7 +2148,11 @@ func main() {
 	run := func(cs *caseSpec) {
 		// Contents are per case: forget the old ones.
 		caseNo++
+		t := time.Now()
 		runCase(r, m, w, cs, caseNo)
+		if d := time.Since(t); d > 3*time.Second && os.Getenv("VERIF_C13_SLOW") != "" {
+			fmt.Fprintf(os.Stderr, "slow case %d %s: %v\n", caseNo, cs.name, d)
+		}
 	}
 	fresh := func() {
 		w.contents = nil
@@ -1860,7 +2176,7 @@ func main() {
 	rng := o.Rand("directed")
 	onlyRandom := os.Getenv("VERIF_C13_ONLY") == "random" // debugging aid: what the random campaign finds alone
 	if !onlyRandom {
-		directedCases(w, rng, each)
+		directedCases(w, rng, o.Thorough(), each)
 	}
 	phase("directed")
 	rng = o.Rand("grid")
@@ -1868,10 +2184,10 @@ func main() {
 	} else if o.Thorough() {
 		gridCases(w, rng, 3, true, each)
 		r.Exhaustive = true
-		r.Notes = append(r.Notes, "grid: every fault kind (8) x every position (index, 3 lists, services) x every round of a 3-round history enumerated")
+		r.Notes = append(r.Notes, "grid: every fault kind (9) x every position (index, 3 lists, services) x every round of a 3-round history enumerated")
 	} else {
 		gridCases(w, rng, 2, false, each)
-		r.Notes = append(r.Notes, "grid: every fault kind except time-outs (6) x every position (index, 3 lists, services) x every round of a 2-round history enumerated")
+		r.Notes = append(r.Notes, "grid: every fault kind except time-outs (7, with the cancellation of the round's context) x every position (index, 3 lists, services) x every round of a 2-round history enumerated")
 	}
 	phase("grid")
 	rng = o.Rand("storage")
@@ -1985,7 +2301,7 @@ func runHashCase(r *hlib.Result, m *hlib.Model, w *world, rng *rand.Rand, no int
 		return w.newHash(size, "ok")
 	}
 
-	lines := []string{"cfg 0 0 0 0 1"}
+	lines := []string{"cfg 0 0 0 0 1 1"}
 	declared := map[int]bool{}
 	declare := func(c *content) {
 		if c != nil && !declared[c.id] {
